@@ -5,16 +5,60 @@ ROOT = os.path.dirname(os.path.dirname(os.path.abspath(__file__)))
 props = [json.loads(l)["id"] for l in open(os.path.join(ROOT, "properties.jsonl"))]
 
 MC = "model_checking"
+TRUST = "Trusted: TLC, the Go runner (harness/cmd/runner) and its projection of observations into the specification's vocabulary, the reference codec (harness/refcodec). Concretisation inside an abstract class (payload bytes, sizes within a class) is seeded-random. "
+def claim(tech, text, note, ref, level=MC):
+    return dict(technique=tech, text=text, note=TRUST + note, ref=ref, level=level)
+
+PIPE = "TLC design check of the TLA+ module + TLC-enumerated scenarios executed on the real code + TLC trace validation of the recorded NDJSON traces"
 CLAIMS = {
-  "C03": dict(technique="TLA+ spec Frames.tla: TLC design check (SegIndep) + TLC-enumerated segmentations replayed on the real envelope reader + TLC trace validation (TraceFrames.tla)",
-              text="TLC checks exhaustively, for the bounded scenario set, that the reader design yields the whole-wire oracle's outcome under every segmentation; every segmentation of small bodies (as TLC paths) and adversarial/random segmentations of all design-check bodies are executed on the real client and handler and each recorded trace (every read, every API result) must be a behaviour of the specification.",
-              note="Trusted: TLC, the scripted io.Reader of the harness, the projection payload->message id. Payload bytes inside a size class are seeded-random.", ref="6 C03"),
-  "C04": dict(technique="TLA+ spec Frames.tla: TLC design check (OnlyTerminatorIsSuccess, HandlerCleanEnd, PrefixOfSent) + every cut offset x tail replayed on the real code + TLC trace validation",
-              text="Every cut offset of every design-check body, with clean EOF / unexpected EOF / transport error tails and gRPC trailers present/absent, is executed against the real client and handler in three protocols; the recorded trace is accepted only if the result (clean end or coded error, delivered ids) is what Frames.tla allows.",
-              note="Cut offsets are exhaustive over abstract frame sizes and scaled to concrete sizes for compressed/terminator frames. Write-side faults are covered by the call-level checks.", ref="6 C04"),
-  "C09": dict(technique="TLA+ spec Frames.tla: TLC design check (LimitExact, NoSpuriousLimit) + limit scenarios replayed on the real code + TLC trace validation",
-              text="Sizes N-1, N, N+1, >>N on the wire and after inflation, at stream positions 1..3, in three protocols and both directions, are executed on the real code; traces must satisfy the specification's limit rule (no message above N delivered, every message of at most N accepted).",
-              note="Memory clause measured separately by the runner (allocation delta) and reported in the evidence.", ref="6 C09"),
+  "C01": claim("Wire.tla (ExactDelivery) / TraceWire.tla: " + PIPE,
+      "Message sequences (sizes around the pool seed and the compression threshold, zero-valued messages anywhere, both directions) x protocol x codec x compression x RPC kind x HTTP version are enumerated by TLC; each runs end to end on the real client and handler (in-memory duplex transport and loopback HTTP/1.1 / HTTP/2); the tapped wire (one flag per message), the handler's view and the client's view must be what Wire.tla computes.",
+      "Multi-MiB payloads only in the thorough tier.", "6 C01"),
+  "C02": claim("Wire.tla (ErrorNeverSuccess) / TraceWire.tla: " + PIPE,
+      "All 16 codes x message classes (empty, non-ASCII, control characters, '%', CR/LF, blanks, 4 KiB) x details x metadata x error kinds (coded, wrapped, coded-with-context-cause, plain) x messages sent before x protocol x codec x kind; the client's error, the raw response decoded by the reference codec and the HTTP status must be what Wire.tla computes.",
+      "Messages are valid UTF-8.", "6 C02"),
+  "C03": claim("Frames.tla (SegIndep) / TraceFrames.tla incl. a relational check between segmentations of one body: " + PIPE,
+      "TLC proves on the bounded scenario set that the reader design yields the whole-wire oracle's outcome under every segmentation; every segmentation of small bodies (as TLC paths), adversarial and random segmentations of all design-check bodies and both EOF placements run on the real client and handler; each trace (every read, every API result) must be a behaviour of Frames.tla and two segmentations of one body must end alike.",
+      "The scripted io.Reader honours io.Reader's contract.", "6 C03"),
+  "C04": claim("Frames.tla (OnlyTerminatorIsSuccess, HandlerCleanEnd, PrefixOfSent) / TraceFrames.tla: " + PIPE,
+      "Every cut offset of every design-check body x {clean EOF, unexpected EOF, transport error} x gRPC trailers present/absent x three protocols x both sides x stream- and unary-shaped APIs is executed on the real code; a trace is accepted only if the result (clean end or coded error, delivered ids a prefix of the sent ones) is what Frames.tla allows.",
+      "Cut offsets are exhaustive over abstract frame sizes and scaled for compressed / terminator frames. Write-side faults belong to the call-level checks.", "6 C04"),
+  "C05": claim("Wire.tla (WellFormed) / TraceWire.tla with the raw exchange tokenised by an independent reference codec: " + PIPE,
+      "Every response the real handler writes and every request the real client writes in the scenarios of C01/C02/C08/C11 is parsed by the harness' own strict codec (own envelope parser, protowire decoding of Status/Any, own percent / base64 / JSON handling); grammar problems (status count and placement, end-of-stream envelope, content-type echo, flag without encoding header, unary error JSON under the code's status) fail the trace and the decoded content must equal what the application supplied.",
+      "The converse direction (peer-encoded input with all legal casings / paddings) is covered for responses by C06's scenarios; a dedicated generator is future work.", "6 C05"),
+  "C06": claim("Resp.tla (NeverZero, Non200Fails) / TraceResp.tla: " + PIPE,
+      "Response classes (17 HTTP statuses x content type x encoding header x gRPC status / details-bin classes in headers and in the terminator x Connect error JSON classes x body classes x metadata key casing x protocol x 4 call shapes) plus seeded random bodies are fed to the real client through a scripted HTTPClient; the outcome must be a success or an error inspectable as *connect.Error with a non-zero code, exactly the code Resp.tla prescribes where the protocols prescribe one, and terminator metadata must be found under its canonical key.",
+      "Random bodies run with a 1 MiB read limit to bound the harness' memory.", "6 C06"),
+  "C07": claim("Serve.tla (AtMostOnce, RefusedNeverRuns, NeverSuccessOnGarbage) / TraceServe.tla: " + PIPE,
+      "Requests (method x HTTP version x 28 content-type strings x codec sets x encoding header x timeout strings x 9 body classes x limit x kind) plus seeded random bodies are served by the real Handler.ServeHTTP; user code / interceptor invocation counts, delivered messages, the response decoded by the reference codec (well-formedness problems fail the trace) and the error code must be what Serve.tla allows.",
+      "", "6 C07"),
+  "C08": claim("Wire.tla (NegotiationSound) / TraceWire.tla: " + PIPE,
+      "Algorithm sets and registration orders on both sides (universe gzip, rev, rev2 incl. re-registering gzip) x send compression x compress-min-bytes x sizes around the threshold x protocol x kind; request / response encoding headers, accept lists, per-message flags, the unimplemented rejection without running user code and payload equality must be what Wire.tla computes.",
+      "The 'corrupt call does not affect later calls' clause is exercised by the pool checks of C13.", "6 C08"),
+  "C09": claim("Frames.tla (LimitExact, NoSpuriousLimit) / TraceFrames.tla + allocation bound: " + PIPE,
+      "Sizes N-1, N, N+1, >>N on the wire and after inflation at stream positions 1..3, both directions, three protocols, stream- and unary-shaped APIs; plus memory attacks run one at a time (64 MiB gzip bomb under a 128 KiB limit, a prefix declaring 1 GiB, the largest possible limit) with runtime.MemStats.TotalAlloc bounded by 8N + 8 MiB.",
+      "Known finding (open): the limit is also applied to terminator frames.", "6 C09"),
+  "C10": claim("Scalars.tla + TimeoutGrammar.tla (TLC) + Timeout.tla (Apalache, whole 63-bit range) / TraceScalars.tla, TraceServe.tla",
+      "Apalache proves the gRPC encoding bound (at most 8 digits, never longer, loses < 1 unit and < 0.01%) for every duration in 1..2^63-1; the real encoder is compared with the TLA+ operator on vectors and swept over boundary + random 63-bit durations against the library's own parser; the header a real client sends for a deadline is bracketed; every timeout string of the grammar model (grammatical, signed, fractional, over-long, unit-less ...) is served by the real handler and the deadline user code sees is compared with TimeoutGrammar.tla.",
+      "Wall-clock slack between ctx.Deadline() and the header is measured per call.", "6 C10"),
+  "C11": claim("Wire.tla (MetaVisible) / TraceWire.tla + Scalars.tla (binary headers): " + PIPE,
+      "Header / trailer multimaps (several values per key, -Bin keys, a key used as header, trailer and error metadata) x protocol x kind x codec x {success with 0..2 messages, error before / after messages}; request headers at the handler, response headers / trailers / Error.Meta at the client and on the wire must contain every value in order as Wire.tla prescribes; the binary-header helpers round-trip padded and unpadded input.",
+      "", "6 C11"),
+  "C12": claim("Serve.tla (AcceptedIffAdvertised, RefusedNeverRuns) / TraceServe.tla: " + PIPE,
+      "7 methods x HTTP/1.0, 1.1, 2 x 28 content-type strings (all advertised ones, near misses, foreign) x codec sets x 4 kinds: 405 + Allow, 505, 415 + Accept-Post = exactly the advertised set, no user code / interceptor in rejected cases, exactly one run with the right Spec otherwise.",
+      "", "6 C12"),
+  "C16": claim("Options.tla (DeclarationOrder, ExactlyOnce) / TraceOptions.tla: " + PIPE,
+      "Every option tree (lists of up to 3 / 4 distinct interceptors with nil anywhere, every composition into WithInterceptors groups, groups wrapped in WithOptions / WithClientOptions / WithHandlerOptions, outer group, empty WithInterceptors()) x {client, handler} x {unary, stream} is built with the real constructors, applied twice, and one real call is made; the recorded order of every layer (entry, exit, send, receive) must be the onion Options.tla computes.",
+      "", "6 C16"),
+  "C17": claim("Gen.tla routing oracle + go/parser + go build on the plugin's real output (level: other)",
+      "TLC enumerates descriptors (package absent / single / dotted x service and method name classes incl. all 25 Go keywords and predeclared identifiers x kinds x deprecation x go_package forms x files without services); the freshly built plugin runs on each, twice (determinism); the output is parsed, a sample (all in thorough) compiled against the library, the routing facts extracted from the AST are compared by TLC with Gen.tla; ping.connect.go is regenerated from the checked-in descriptors.",
+      "'Valid Go that type-checks' is decided by the Go toolchain, not by the specification.", "6 C17", level="other"),
+  "C18": claim("Scalars.tla (PctRoundTrip, StatusIsError) / TraceScalars.tla + exhaustive sweeps",
+      "TLC enumerates all byte strings up to length 3 over 12 class representatives, decoder inputs up to length 4, code values and parse vectors; the real functions are applied and compared with the TLA+ operators; the 2^32 code space is swept (stratified 2^24 in quick, complete in thorough) for String/UnmarshalText round trip and 4xx/5xx status; random long byte strings for percent-encoding and binary headers; Grpc-Message is also observed end to end.",
+      "Unexported functions are reached through verif-tagged shims.", "6 C18"),
+  "C19": claim("Options.tla (WithRecover as an interceptor) / TraceOptions.tla: " + PIPE,
+      "Panic value (none, nil, error, string, struct, abort sentinel) x panic point x kind x protocol x position of the recover interceptor in chains of up to three: exactly one call of the recovery function with the recovered value, its error at the client, messages delivered before the panic, exits of the outer interceptors, abort sentinel propagated.",
+      "", "6 C19"),
 }
 
 def check(pid):
@@ -51,7 +95,7 @@ m = {
   "engines": [{"name": "tlc+go-runner", "path": "/verif/check",
                "serves_properties": sorted(CLAIMS), "kind_free_text": "explicit TLA+ specification (spec/*.tla) model-checked by TLC; TLC-generated scenarios executed on the real code by a Go runner; recorded NDJSON traces validated by TLC against trace specifications"}],
   "checks": [check(p) for p in props if p in CLAIMS],
-  "not_applicable": [{"property_id": p, "reason": "not claimed yet: the check for this property is still being built (see DESIGN.md section 12)"} for p in props if p not in CLAIMS],
+  "not_applicable": [{"property_id": p, "reason": "not claimed yet: the call-level specification (Call.tla / Pools.tla) and its trace validation are still being built (DESIGN.md section 12)"} for p in props if p not in CLAIMS],
   "notes": "Model-based verification with an explicit TLA+ specification; see DESIGN.md.",
 }
 json.dump(m, open(os.path.join(ROOT, "MANIFEST.json"), "w"), indent=1)
